@@ -430,6 +430,9 @@ func genC14(c *Ctx) {
 	}
 	for _, set := range c14Sets() {
 		c14CRSDeterminism(c, set)
+		for i := 0; i < c.Scale(2, 8); i++ {
+			c14CRSTie(c, set)
+		}
 		for _, n := range ns {
 			c14CPK(c, set, n)
 		}
